@@ -62,6 +62,8 @@ def parse_val(tok):
         tok, af = tok.split("@", 1)
     if tok == "-":
         return ("none",), af
+    if ":" not in tok:
+        return ("?", tok), af
     k, v = tok.split(":", 1)
     if k in ("i", "l"):
         return (("miss",) if int(v) == -1 else ("num", Fraction(int(v)))), af
